@@ -2415,6 +2415,8 @@ void install_termination_handlers() {
 #ifdef SIGQUIT
     install(SIGQUIT);
 #endif
+    // A peer or control client that resets its connection must not kill the daemon with SIGPIPE.
+    std::signal(SIGPIPE, SIG_IGN);
 #endif
 }
 
